@@ -50,6 +50,13 @@ def run(ctx):
     r13_key_immutable(ctx)
     r14_counter(ctx)
     r16_cmp(ctx)
+    r17_shared(ctx)
+
+
+def r17_shared(ctx):
+    from ..statrules import shared_class_state
+    shared_class_state(ctx, 'R1.7', sorted(c for c, ci in ctx.prog.classes.items() if ci.module.name in ('eventlist', 'simevent')),
+                       'an event scheduled on one event list appears on (and is popped from) every other event list')
 
 
 # --------------------------------------------------------------------------- R1.1 / R1.2 / R1.5
@@ -329,6 +336,86 @@ def simevent_fields(prog):
     return out
 
 
+# --------------------------------------------------------------------------- linear scans
+class Scan:
+    """`v = len(F) - 1; while v >= 0 and F[v] != K: v -= 1`  (down)   or   `v = 0; while v < len(F) and F[v] != K: v += 1`  (up).
+    The range test is exact and evaluated first, the step is one, K does not mention v: after the loop v is the position of an
+    element equal to K, or -1 (down) / len(F) (up) exactly when no element equals K."""
+
+    def __init__(self, var, direction, key, loop):
+        self.var, self.direction, self.key, self.loop = var, direction, key, loop
+
+    def found_test(self, op, rhs, isF):
+        c = const_value(rhs)
+        if self.direction == 'down':
+            return (isinstance(op, ast.GtE) and c == 0) or (isinstance(op, ast.Gt) and c == -1) or (isinstance(op, ast.NotEq) and c == -1)
+        is_len = isinstance(rhs, ast.Call) and unparse(rhs.func) == 'len' and len(rhs.args) == 1 and isF(rhs.args[0])
+        return is_len and isinstance(op, (ast.Lt, ast.NotEq))
+
+
+def linear_scans(fn, isF):
+    """({var: Scan}, [(loop, why not)]) over the top-level statements of fn"""
+    scans, near = {}, []
+    body = body_of(fn)
+    stores = {}
+    for n in ast.walk(fn):
+        if isinstance(n, ast.Name) and isinstance(n.ctx, ast.Store):
+            stores[n.id] = stores.get(n.id, 0) + 1
+    for i in range(len(body) - 1):
+        a, w = body[i], body[i + 1]
+        if not (isinstance(a, (ast.Assign, ast.AnnAssign)) and isinstance(w, ast.While) and not w.orelse):
+            continue
+        tg = a.targets[0] if isinstance(a, ast.Assign) else a.target
+        if not isinstance(tg, ast.Name) or a.value is None:
+            continue
+        v = tg.id
+        t = w.test
+        if not (isinstance(t, ast.BoolOp) and isinstance(t.op, ast.And) and len(t.values) == 2):
+            continue
+        rng, cmp_ = t.values
+        if not (isinstance(cmp_, ast.Compare) and len(cmp_.ops) == 1 and isinstance(cmp_.ops[0], ast.NotEq)):
+            continue
+        el, key = cmp_.left, cmp_.comparators[0]
+        if not (isinstance(el, ast.Subscript) and isF(el.value)):
+            el, key = key, el
+        if not (isinstance(el, ast.Subscript) and isF(el.value) and isinstance(el.slice, ast.Name) and el.slice.id == v):
+            continue
+        if any(isinstance(x, ast.Name) and x.id == v for x in ast.walk(key)):
+            continue
+        step = None
+        if len(w.body) == 1:
+            b = w.body[0]
+            if isinstance(b, ast.AugAssign) and isinstance(b.target, ast.Name) and b.target.id == v and const_value(b.value) == 1:
+                step = -1 if isinstance(b.op, ast.Sub) else (1 if isinstance(b.op, ast.Add) else None)
+            elif isinstance(b, ast.Assign) and unparse(b.targets[0]) == v and unparse(b.value) in (f'{v} - 1', f'{v} + 1'):
+                step = -1 if unparse(b.value).endswith('- 1') else 1
+        if step is None:
+            near.append((w, f'the loop body is not a single step of `{v}` by one'))
+            continue
+        if stores.get(v, 0) != 2:
+            near.append((w, f'`{v}` is assigned elsewhere as well'))
+            continue
+        init = unparse(a.value)
+        rt = unparse(rng)
+        lens = [f'len({unparse(el.value)})']
+        if step == -1:
+            ok_init = init == f'{lens[0]} - 1'
+            ok_rng = rt in (f'{v} >= 0', f'{v} > -1', f'0 <= {v}', f'-1 < {v}')
+            if ok_init and ok_rng:
+                scans[v] = Scan(v, 'down', key, w)
+            else:
+                near.append((w, f'scan downwards from `{init}` while `{rt}`: ' + ('position 0 is never compared' if rt in (f'{v} > 0', f'0 < {v}', f'{v} >= 1') else
+                                                                                 'the start / range test does not cover every position')))
+        else:
+            ok_init = init == '0'
+            ok_rng = rt in (f'{v} < {lens[0]}', f'{lens[0]} > {v}', f'{v} != {lens[0]}', f'{v} <= {lens[0]} - 1')
+            if ok_init and ok_rng:
+                scans[v] = Scan(v, 'up', key, w)
+            else:
+                near.append((w, f'scan upwards from `{init}` while `{rt}`: the start / range test does not cover every position'))
+    return scans, near
+
+
 # --------------------------------------------------------------------------- R1.5
 EMPTY_FORMS = None
 
@@ -451,8 +538,33 @@ def r15_observers(ctx, cname, ci, F, ev_index, isF):
                     continue
         good = False
     good = good and member_seen
-    ctx.ob('R1.5', f'{cname}.contains', good, sample=f'{cname}.contains returns {[short(r.value) for r in rs if r.value is not None]}')
     if not good:
+        # hand-written linear scan over the backing list (index variable, one step per round, exact range test first)
+        scans, near = linear_scans(fn, isF)
+        good2 = bool(rs) and bool(scans)
+        for r in rs:
+            v = r.value
+            if isinstance(v, ast.Constant) and v.value is False:
+                node = g.node_for(r)
+                if not any((is_emptiness_test(prog, cname, F, c.ast) == 1 and br) or (is_emptiness_test(prog, cname, F, c.ast) == -1 and not br)
+                           for (c, br) in g.guard_branches(node)):
+                    good2 = False
+                continue
+            if not (isinstance(v, ast.Compare) and len(v.ops) == 1 and isinstance(v.left, ast.Name) and v.left.id in scans
+                    and scans[v.left.id].found_test(v.ops[0], v.comparators[0], isF)):
+                good2 = False
+        if good2:
+            good = True
+        elif near:
+            ctx.ob('R1.5', f'{cname}.contains', False, sample=near[0][1])
+            ctx.finding('R1.5', f'{cname}.contains:scan', ci, near[0][0], f'contains() searches the backing list with a loop that does not visit every position: {near[0][1]}',
+                        where=f'{cname}.contains')
+            good = None
+    if good is None:
+        pass
+    else:
+        ctx.ob('R1.5', f'{cname}.contains', good, sample=f'{cname}.contains returns {[short(r.value) for r in rs if r.value is not None]}')
+    if good is False:
         ctx.finding('R1.5', f'{cname}.contains', ci, fn, 'contains() is not a membership test of the stored key', where=f'{cname}.contains')
     # remove: True exactly on the paths that removed
     fn = need('remove')
@@ -468,11 +580,58 @@ def r15_observers(ctx, cname, ci, F, ev_index, isF):
             elif isinstance(n, ast.Subscript) and isF(n.value) and isinstance(n.ctx, ast.Del):
                 removers.append(node)
     good = bool(removers)
+    # removal by position: the position is that of the key (a complete scan or list.index), tested for `found` before use
+    scans_r, near_r = linear_scans(fn, isF)
+    for node in removers:
+        for n in walk_shallow(node.ast):
+            idx = None
+            if isinstance(n, ast.Subscript) and isF(n.value) and isinstance(n.ctx, ast.Del):
+                idx = n.slice
+            elif isinstance(n, ast.Call) and isinstance(n.func, ast.Attribute) and isF(n.func.value) and n.func.attr == 'pop' and n.args:
+                idx = n.args[0]
+            if idx is None:
+                continue
+            okp = False
+            if isinstance(idx, ast.Name) and idx.id in scans_r:
+                sc_ = scans_r[idx.id]
+                for (cnd, br) in g.guard_branches(node):
+                    t = cnd.ast
+                    neg = False
+                    while isinstance(t, ast.UnaryOp) and isinstance(t.op, ast.Not):
+                        t, neg = t.operand, not neg
+                    if isinstance(t, ast.Compare) and len(t.ops) == 1 and isinstance(t.left, ast.Name) and t.left.id == idx.id:
+                        INV = {ast.Lt: ast.GtE, ast.GtE: ast.Lt, ast.Gt: ast.LtE, ast.LtE: ast.Gt, ast.Eq: ast.NotEq, ast.NotEq: ast.Eq}
+                        op = t.ops[0] if (br != neg) else INV.get(type(t.ops[0]), type(None))()
+                        if sc_.found_test(op, t.comparators[0], isF):
+                            okp = True
+            elif isinstance(idx, ast.Call) and isinstance(idx.func, ast.Attribute) and idx.func.attr == 'index' and isF(idx.func.value):
+                okp = True
+            elif isinstance(idx, ast.Name):
+                # `for i, x in enumerate(F): if x == key: del F[i]; break` -- the position of the element just compared equal
+                for lp in walk_shallow(fn):
+                    if isinstance(lp, ast.For) and isinstance(lp.iter, ast.Call) and unparse(lp.iter.func) == 'enumerate' and lp.iter.args and isF(lp.iter.args[0]) \
+                            and isinstance(lp.target, ast.Tuple) and len(lp.target.elts) == 2 and unparse(lp.target.elts[0]) == idx.id \
+                            and any(y is n for b_ in lp.body for y in ast.walk(b_)):
+                        el = unparse(lp.target.elts[1])
+                        for (cnd, br) in g.guard_branches(node):
+                            t = cnd.ast
+                            if isinstance(t, ast.Compare) and len(t.ops) == 1 and isinstance(t.ops[0], ast.Eq) and br \
+                                    and el in (unparse(t.left), unparse(t.comparators[0])):
+                                # nothing of the loop may run after the deletion (the positions shift)
+                                succ_ok = all(isinstance(s_.ast, (ast.Break, ast.Return)) for (s_, lab) in node.succ if lab != 'exc')
+                                okp = succ_ok
+            ctx.ob('R1.5', f'{cname}.remove:position', okp, sample=f'{cname}.remove deletes position `{short(idx)}`')
+            if not okp:
+                good = False
+                why = near_r[0][1] if near_r else 'it is not the result of a complete search for the key, tested for success'
+                ctx.finding('R1.5', f'{cname}.remove:position', ci, n, f'remove() deletes position `{short(idx)}` which is not proved to be the position of the event: {why}',
+                            where=f'{cname}.remove')
     for r in returns(fn):
         node = g.node_for(r)
         v = const_value(r.value) if r.value is not None else None
         passes_all = not g.reaches(g.entry, node, avoid=removers)
-        passes_some = any(g.reaches(rm, node) for rm in removers)
+        # the exceptional exit of the removing call itself (ValueError of list.remove, IndexError of pop/del) means nothing was removed
+        passes_some = any(s_ is node or g.reaches(s_, node) for rm in removers for (s_, lab) in rm.succ if lab != 'exc')
         if v is True and not passes_all:
             good = False
             ctx.finding('R1.5', f'{cname}.remove:true-without-removal', ci, r, 'remove() can return True without having removed', where=f'{cname}.remove')
